@@ -37,6 +37,7 @@ def run(ctx):
     r7_corral_poles(ctx)
     r8_sampler(ctx)
     r9_smoothing_sums_to_one(ctx)
+    r10_math_domains(ctx)
 
 
 def _single_return(fn):
@@ -282,6 +283,8 @@ def r8_sampler(ctx):
     ctx.rule("C16.R8", "the action a PMF learner plays is one its policy gives positive probability: CobaRandom.choice (behind choicew / PMFPredictor) returns the first "
                        "item whose cumulative weight strictly exceeds U*tot -- an item of weight 0 is never drawn, not even in the generator state U == 0")
     c05.weighted_choice(ctx, "C16.R8")
+    # both samplers (index int(len*U) and the strict cumulative scan) rely on U < 1
+    c05.uniform_source(ctx, "C16.R8")
 
 
 def r6_type_dispatch(ctx):
@@ -365,7 +368,165 @@ def _reg_dict(tree):
     raise TargetMissing("Sparse.register(abc.Mapping)")
 
 
+class _Sign:
+    """sign analysis (domain {>=0 or nan, >=1, unknown}) of arithmetic expressions inside one class: names are resolved through their single
+    definition in the function, `self.m(...)` through the return expressions of m, count fields and trusted properties through tables that
+    are themselves checked structurally."""
+
+    def __init__(self, cls, counts, nonneg_props):
+        self.cls = cls
+        self.counts = counts          # self fields (or subscripts of them) known to be >= 1 where read
+        self.props = nonneg_props     # attribute names known to be >= 0 (or nan)
+        self.why = []
+
+    def _defs(self, fn, name):
+        return assigned_value(fn, name)
+
+    def ge1(self, e, fn, depth=0):
+        if depth > 6:
+            return False
+        if isinstance(e, ast.Constant) and isinstance(e.value, (int, float)) and not isinstance(e.value, bool):
+            return e.value >= 1
+        if is_self_attr(e) and e.attr in self.counts:
+            return True
+        if isinstance(e, ast.Subscript) and is_self_attr(e.value) and e.value.attr in self.counts:
+            return True
+        if isinstance(e, ast.Name):
+            ds = self._defs(fn, e.id)
+            return bool(ds) and all(self.ge1(d, fn, depth + 1) for d in ds)
+        if isinstance(e, ast.Call) and call_name(e) == "len":
+            return False
+        if isinstance(e, ast.BinOp) and isinstance(e.op, (ast.Add, ast.Mult)):
+            return (self.ge1(e.left, fn, depth + 1) and (self.ge1(e.right, fn, depth + 1) or (isinstance(e.op, ast.Add) and self.nonneg(e.right, fn, depth + 1)))) or \
+                   (isinstance(e.op, ast.Add) and self.nonneg(e.left, fn, depth + 1) and self.ge1(e.right, fn, depth + 1))
+        return False
+
+    def _callee(self, e, fn):
+        """math function name behind a call: math.sqrt / sqrt / local alias `ln = math.log`"""
+        f = e.func
+        if isinstance(f, ast.Attribute) and isinstance(f.value, ast.Name) and f.value.id == "math":
+            return f.attr
+        if isinstance(f, ast.Name):
+            ds = self._defs(fn, f.id)
+            if len(ds) == 1 and isinstance(ds[0], ast.Attribute) and isinstance(ds[0].value, ast.Name) and ds[0].value.id == "math":
+                return ds[0].attr
+            if f.id in ("sqrt", "log", "exp", "min", "max", "abs", "len", "sum", "int", "float"):
+                return f.id
+        return None
+
+    def nonneg(self, e, fn, depth=0):
+        if depth > 8:
+            return False
+        if isinstance(e, ast.Constant) and isinstance(e.value, (int, float)):
+            return e.value >= 0
+        if self.ge1(e, fn, depth + 1):
+            return True
+        if isinstance(e, ast.Name):
+            ds = self._defs(fn, e.id)
+            return bool(ds) and all(self.nonneg(d, fn, depth + 1) for d in ds)
+        if isinstance(e, ast.Attribute) and not is_self_attr(e) and e.attr in self.props:
+            return True
+        if isinstance(e, ast.BinOp):
+            if isinstance(e.op, (ast.Add, ast.Mult, ast.Div)):
+                return self.nonneg(e.left, fn, depth + 1) and self.nonneg(e.right, fn, depth + 1)
+            if isinstance(e.op, ast.Pow) and isinstance(e.right, ast.Constant) and isinstance(e.right.value, int) and e.right.value % 2 == 0:
+                return True
+            return False
+        if isinstance(e, ast.Call):
+            nm = self._callee(e, fn)
+            if nm in ("sqrt", "exp", "abs", "len"):
+                return True
+            if nm == "log":
+                return len(e.args) == 1 and self.ge1(e.args[0], fn, depth + 1)
+            if nm == "min":
+                return bool(e.args) and all(self.nonneg(a, fn, depth + 1) for a in e.args)
+            if nm == "max":
+                return any(self.nonneg(a, fn, depth + 1) for a in e.args)
+            if isinstance(e.func, ast.Attribute) and is_self_attr(e.func) and e.func.attr in self.cls.methods:
+                m = self.cls.methods[e.func.attr]
+                rets = [r for r in walk_shallow(m) if isinstance(r, ast.Return) and r.value is not None]
+                return bool(rets) and all(self.nonneg(r.value, m, depth + 1) for r in rets)
+        return False
+
+
+def r10_math_domains(ctx):
+    ctx.rule("C16.R10", "learning never leaves a learner unable to predict: sign analysis of every math.sqrt / math.log argument on the predict/score path of the "
+                        "bandit learners -- sqrt arguments are sums/products/quotients of non-negative terms, log arguments are counts >= 1; the count fields "
+                        "are only set to 1 / incremented, and the variance property used is Welford's (a sum of products delta*delta2 >= 0, or nan before two updates)")
+    REL = "coba/learners/bandit.py"
+    c = ctx.model.cls(REL, "BanditUCBLearner")
+    # count fields: every store outside __init__ is `= 1` or `+= 1`
+    counts = set()
+    for field in ("_t", "_s"):
+        sts = []
+        for name, m in c.methods.items():
+            for st in ast.walk(m):
+                tg = st.targets if isinstance(st, ast.Assign) else [st.target] if isinstance(st, (ast.AugAssign, ast.AnnAssign)) else []
+                for t in tg:
+                    base = t.value if isinstance(t, ast.Subscript) else t
+                    if is_self_attr(base, field):
+                        sts.append((name, st))
+        ok = bool(sts)
+        for name, st in sts:
+            if name == "__init__":
+                continue
+            v = unparse(st.value) if st.value is not None else ""
+            good = (isinstance(st, ast.Assign) and v == "1") or (isinstance(st, ast.AugAssign) and isinstance(st.op, ast.Add) and v == "1")
+            ok = ok and good
+        ctx.ob("C16.R10", REL, "BanditUCBLearner.learn", sts[-1][1] if sts else c.node, f"self.{field} is a count: set to 1 or incremented by 1 only", ok, stmt=f"count field {field}")
+        if ok:
+            counts.add(field)
+    # self._t is incremented before the first arm statistics exist (so t >= 1 wherever an observed arm is scored)
+    learn = c.methods["learn"]
+    inc = [st for st in learn.body if isinstance(st, ast.AugAssign) and is_self_attr(st.target, "_t")]
+    first_arm = [st for st in ast.walk(learn) if isinstance(st, ast.Assign) and any(isinstance(t, ast.Subscript) and is_self_attr(t.value, "_m") for t in st.targets)]
+    ctx.ob("C16.R10", REL, "BanditUCBLearner.learn", inc[0] if inc else learn, "the round counter is incremented unconditionally before any arm statistic is stored",
+           bool(inc) and bool(first_arm) and all(inc[0].lineno < a.lineno for a in first_arm), stmt="t incremented first")
+    # Welford variance is non-negative (or nan)
+    ST = "coba/statistics.py"
+    ov = ctx.model.cls(ST, "OnlineVariance")
+    upd = ov.methods["update"]
+    # roles: the locals written back to self._count / self._mean / self._M2
+    role = {}
+    for st in walk_shallow(upd):
+        if isinstance(st, ast.Assign) and isinstance(st.targets[0], ast.Tuple) and isinstance(st.value, ast.Tuple) and len(st.targets[0].elts) == len(st.value.elts):
+            for t_, v_ in zip(st.targets[0].elts, st.value.elts):
+                if is_self_attr(t_) and isinstance(v_, ast.Name):
+                    role[t_.attr] = v_.id
+        elif isinstance(st, ast.Assign) and is_self_attr(st.targets[0]) and isinstance(st.value, ast.Name):
+            role[st.targets[0].attr] = st.value.id
+    M2, MEAN, COUNT = role.get("_M2", "M2"), role.get("_mean", "mean"), role.get("_count", "count")
+    m2 = [st for st in walk_shallow(upd) if isinstance(st, ast.AugAssign) and isinstance(st.target, ast.Name) and st.target.id == M2]
+    okw = len(m2) == 1 and isinstance(m2[0].op, ast.Add) and isinstance(m2[0].value, ast.BinOp) and isinstance(m2[0].value.op, ast.Mult)
+    if okw:
+        a, b = m2[0].value.left, m2[0].value.right
+        da = assigned_value(upd, a.id) if isinstance(a, ast.Name) else []
+        db = assigned_value(upd, b.id) if isinstance(b, ast.Name) else []
+        okw = len(da) == 1 and len(db) == 1 and {unparse(da[0]), unparse(db[0])} == {f"value - {MEAN}"} and a.id != b.id
+    var_st = [st for st in ast.walk(upd) if isinstance(st, ast.Assign) and any(is_self_attr(t, "_variance") for t in st.targets)]
+    okv = len(var_st) == 1 and unparse(var_st[0].value) == f"{M2} / ({COUNT} - 1)" and any(unparse(t) in (f"{COUNT} > 1", f"1 < {COUNT}") and pol for t, pol in guards_of(var_st[0], upd))
+    ctx.ob("C16.R10", ST, "OnlineVariance.update", m2[0] if m2 else upd, "M2 only grows by (value - old mean)*(value - new mean) >= 0 and the variance is M2/(count-1) for count > 1", okw and okv,
+           stmt="welford", detail={"M2": okw, "variance": okv})
+    vs = [st for name, m in c.methods.items() for st in ast.walk(m) if isinstance(st, ast.Assign) and any(isinstance(t, ast.Subscript) and is_self_attr(t.value, "_v") for t in st.targets)]
+    okt = bool(vs) and all(isinstance(st.value, ast.Call) and call_name(st.value) == "OnlineVariance" for st in vs)
+    props = {"variance"} if (okw and okv and okt) else set()
+    S = _Sign(c, counts, props)
+    n = 0
+    for name, m in sorted(c.methods.items()):
+        for call in [x for x in walk_shallow(m) if isinstance(x, ast.Call)]:
+            nm = S._callee(call, m)
+            if nm == "sqrt" and call.args:
+                n += 1
+                ctx.ob("C16.R10", REL, f"BanditUCBLearner.{name}", call, "the sqrt argument is non-negative (or nan) for every history", S.nonneg(call.args[0], m))
+            elif nm == "log" and call.args:
+                n += 1
+                ctx.ob("C16.R10", REL, f"BanditUCBLearner.{name}", call, "the log argument is a count >= 1", S.ge1(call.args[0], m))
+    ctx.floor("C16.R10", "sqrt/log calls in BanditUCBLearner", n, 4)
+
+
 CONTROLS = [
+    ("ucb variance as mean of squares minus squared mean", "coba/learners/bandit.py", M.replace_expr("BanditUCBLearner._Var_R_UCB", "self._v[action].variance", "self._v[action].variance - self._m[action] ** 2"), "C16.R10"),
+    ("uniform draws reach 1.0", "coba/random.py", M.replace_expr("CobaRandom._next_uniform", "s / m", "s / m_1"), "C16.R8"),
     ("uniform mass added per learner without dividing by M", "coba/learners/corral.py", M.replace_expr("CorralLearner.learn", "(1 - self._gamma) * p + self._gamma * 1 / len(self._base_lrns)", "(1 - self._gamma) * p + self._gamma"), "C16.R9"),
     ("sampler bisects to the left", "coba/random.py", M.replace_expr("CobaRandom.choice", "next(compress(seq, map((next(self._randu) * tot).__lt__, accumulate(weights))))",
                                                                     "seq[bisect_left(list(accumulate(weights)), next(self._randu) * tot)]"), "C16.R8"),
